@@ -147,4 +147,99 @@ theorem ev_bin_ops {op : BinOp} {ty : Ty} {l rhs : Expr} {ρ : Env} {w : World} 
       exact ⟨a, [b], rfl, b, rfl, hk⟩
     exact RB.mono (fun _ h => h) (fun a w1 r hk => (key a w1 r).2 hk) (rb_first_list.2 h2)
 
+/-! ### `dynCall` -/
+
+/-- what happens once the receiver `v` and the arguments `as` have values -/
+def dynHead (P : Prog) (tr m : String) (v : Val) (as : List Val) (w : World) (r : Res Val) : Prop :=
+  match v with
+  | .dyn _ key v0 => dynDispatch P tr m key v0 as w r
+  | _ => r = .fail (.stuck "dyn call on a non-dyn value") w
+
+def dynH (P : Prog) (tr m : String) (vs : List Val) (w : World) (r : Res Val) : Prop :=
+  ∃ v as, vs = v :: as ∧ dynHead P tr m v as w r
+
+def isDynVal : Val → Bool
+  | .dyn _ _ _ => true
+  | _ => false
+
+theorem dynK_of_dyn {tr m : String} {args : List Expr} {ρ : Env} {v : Val} {w : World} {r : Res Val}
+    (h : isDynVal v = true) :
+    dynK P tr m args ρ v w r ↔ RB (EvL P args ρ w) (fun vs w2 => dynHead P tr m v vs w2) r := by
+  cases v <;> simp [isDynVal] at h
+  rfl
+
+theorem dynK_of_not_dyn {tr m : String} {args : List Expr} {ρ : Env} {v : Val} {w : World} {r : Res Val}
+    (h : isDynVal v = false) :
+    dynK P tr m args ρ v w r ↔ r = .fail (.stuck "dyn call on a non-dyn value") w := by
+  cases v <;> simp [isDynVal] at h <;> rfl
+
+theorem dynHead_of_not_dyn {tr m : String} {v : Val} {as : List Val} {w : World} {r : Res Val}
+    (h : isDynVal v = false) :
+    dynHead P tr m v as w r ↔ r = .fail (.stuck "dyn call on a non-dyn value") w := by
+  cases v <;> simp [isDynVal] at h <;> rfl
+
+theorem dyn_src_fw {tr m : String} {ty : Ty} {recv : Expr} {args : List Expr} {ρ : Env} {w : World} {r : Res Val}
+    (h : Ev P (.dynCall tr m ty recv args) ρ w r) (hs : ¬Stuck r) :
+    RB (EvL P (recv :: args) ρ w) (dynH P tr m) r := by
+  rcases ev_dynCall.1 h with ⟨f, w', h1, rfl⟩ | ⟨v, w1, h1, h2⟩
+  · exact Or.inl ⟨f, w', evL_cons.2 (Or.inl ⟨f, w', h1, rfl⟩), rfl⟩
+  · cases hd : isDynVal v
+    · rw [dynK_of_not_dyn hd] at h2; subst h2; simp at hs
+    · rw [dynK_of_dyn hd] at h2
+      rcases h2 with ⟨f, w', h3, rfl⟩ | ⟨vs, w2, h3, h4⟩
+      · exact Or.inl ⟨f, w', evL_cons.2 (Or.inr ⟨v, w1, h1, Or.inl ⟨f, w', h3, rfl⟩⟩), rfl⟩
+      · exact Or.inr ⟨v :: vs, w2, evL_cons.2 (Or.inr ⟨v, w1, h1, Or.inr ⟨vs, w2, h3, rfl⟩⟩), v, vs, rfl, h4⟩
+
+theorem dyn_src_bw {tr m : String} {ty : Ty} {recv : Expr} {args : List Expr} {ρ : Env} {w : World} {r : Res Val}
+    (h : RB (EvL P (recv :: args) ρ w) (dynH P tr m) r) :
+    Ev P (.dynCall tr m ty recv args) ρ w r ∨
+      ∃ s w', Ev P (.dynCall tr m ty recv args) ρ w (.fail (.stuck s) w') := by
+  rcases h with ⟨f, w', h1, rfl⟩ | ⟨vs, w2, h1, v, as, rfl, h2⟩
+  · rcases evL_cons.1 h1 with ⟨f', w'', h3, h4⟩ | ⟨v, w1, h3, h4⟩
+    · cases h4; exact Or.inl (ev_dynCall.2 (Or.inl ⟨f, w', h3, rfl⟩))
+    · rcases h4 with ⟨f', w'', h5, h6⟩ | ⟨_, _, _, h6⟩
+      · cases h6
+        cases hd : isDynVal v
+        · exact Or.inr ⟨_, w1, ev_dynCall.2 (Or.inr ⟨v, w1, h3, (dynK_of_not_dyn hd).2 rfl⟩)⟩
+        · exact Or.inl (ev_dynCall.2 (Or.inr ⟨v, w1, h3, (dynK_of_dyn hd).2 (Or.inl ⟨f, w', h5, rfl⟩)⟩))
+      · cases h6
+  · rcases evL_cons.1 h1 with ⟨f', w'', _, h4⟩ | ⟨v', w1, h3, h4⟩
+    · cases h4
+    · rcases h4 with ⟨f', w'', _, h6⟩ | ⟨as', w2', h5, h6⟩
+      · cases h6
+      · cases h6
+        cases hd : isDynVal v
+        · exact Or.inr ⟨_, w1, ev_dynCall.2 (Or.inr ⟨v, w1, h3, (dynK_of_not_dyn hd).2 rfl⟩)⟩
+        · exact Or.inl (ev_dynCall.2 (Or.inr ⟨v, w1, h3, (dynK_of_dyn hd).2 (Or.inr ⟨as, w2, h5, h2⟩)⟩))
+
+/-- with atoms as operands the order of the receiver check and the arguments does not matter -/
+theorem dyn_tgt {tr m : String} {ty : Ty} {recv : Expr} {args : List Expr} {ρ : Env} {w : World} {r : Res Val}
+    (hr : isAtom recv = true) (ha : ∀ i ∈ args, isAtom i = true) :
+    Ev P (.dynCall tr m ty recv args) ρ w r ↔ RB (EvL P (recv :: args) ρ w) (dynH P tr m) r := by
+  have hall : ∀ i ∈ recv :: args, isAtom i = true := by
+    intro i hi; simp only [List.mem_cons] at hi; rcases hi with rfl | hi
+    · exact hr
+    · exact ha i hi
+  constructor
+  · intro h
+    rcases ev_dynCall.1 h with ⟨f, w', h1, _⟩ | ⟨v, w1, h1, h2⟩
+    · rw [ev_atom hr] at h1; cases h1
+    · rw [ev_atom hr] at h1; cases h1
+      refine Or.inr ⟨_, w, (evL_atoms hall).2 rfl, atomVal ρ recv, args.map (atomVal ρ), by simp, ?_⟩
+      cases hd : isDynVal (atomVal ρ recv)
+      · rw [dynK_of_not_dyn hd] at h2; exact (dynHead_of_not_dyn hd).2 h2
+      · rw [dynK_of_dyn hd] at h2
+        rcases h2 with ⟨f, w', h3, _⟩ | ⟨vs, w2, h3, h4⟩
+        · rw [evL_atoms ha] at h3; cases h3
+        · rw [evL_atoms ha] at h3; cases h3; exact h4
+  · rintro (⟨f, w', h1, _⟩ | ⟨vs, w2, h1, v, as, h2, h3⟩)
+    · rw [evL_atoms hall] at h1; cases h1
+    · rw [evL_atoms hall] at h1; cases h1
+      simp only [List.map_cons, List.cons.injEq] at h2
+      obtain ⟨rfl, rfl⟩ := h2
+      refine ev_dynCall.2 (Or.inr ⟨_, w, (ev_atom hr).2 rfl, ?_⟩)
+      cases hd : isDynVal (atomVal ρ recv)
+      · exact (dynK_of_not_dyn hd).2 ((dynHead_of_not_dyn hd).1 h3)
+      · exact (dynK_of_dyn hd).2 (Or.inr ⟨_, w, (evL_atoms ha).2 rfl, h3⟩)
+
 end Goml.Anf
